@@ -95,14 +95,18 @@ func (alloc *BitmapAllocator) setupPoolBitmaps() *kernel.Error {
 			return true
 		}
 
-		alloc.poolsHdr.Len++
-		alloc.poolsHdr.Cap++
-
 		// Reported addresses may not be page-aligned; round up to get
 		// the start frame and round down to get the end frame
 		regionStartFrame := mm.Frame(((uintptr(region.PhysAddress) + pageSizeMinus1) & ^pageSizeMinus1) >> mm.PageShift)
 		regionEndFrame := mm.Frame((uintptr(region.PhysAddress+region.Length) & ^pageSizeMinus1)>>mm.PageShift) - 1
 		pageCount := regionPageCount(regionStartFrame, regionEndFrame)
+		if pageCount == 0 {
+			// regions that do not contain a whole frame get no pool
+			return true
+		}
+
+		alloc.poolsHdr.Len++
+		alloc.poolsHdr.Cap++
 		alloc.totalPages += pageCount
 
 		// To represent the free page bitmap we need pageCount bits. Since our
@@ -146,6 +150,9 @@ func (alloc *BitmapAllocator) setupPoolBitmaps() *kernel.Error {
 		regionStartFrame := mm.Frame(((uintptr(region.PhysAddress) + pageSizeMinus1) & ^pageSizeMinus1) >> mm.PageShift)
 		regionEndFrame := mm.Frame((uintptr(region.PhysAddress+region.Length) & ^pageSizeMinus1)>>mm.PageShift) - 1
 		pageCount := regionPageCount(regionStartFrame, regionEndFrame)
+		if pageCount == 0 {
+			return true
+		}
 		bitmapBytes := ((uintptr(pageCount) + 63) &^ 63) >> 3
 
 		alloc.pools[poolIndex].startFrame = regionStartFrame
